@@ -82,54 +82,223 @@ CHARS = ['_', '\\', '"', ';', '[', ']', 'a', 'A', 'p', 'P', 'm', 'M', '/', 'd', 
 DATE_LETTERS = set("dmhysDMHYS")
 
 
+UNK = object()
+
+
+def _ev(e, env):
+    """concrete value of an expression over the scanner state, or UNK"""
+    e = unwrap(e)
+    if not isinstance(e, dict):
+        return UNK
+    k = e.get("k")
+    if k == "Lit":
+        v = lit_value(e)
+        return v if v is not None else UNK
+    if k in ("Path", "Field"):
+        nm = _sv(e)
+        nm = _CANON.get(nm, nm)
+        return env.get(nm, UNK) if nm else UNK
+    if k in ("AddrOf", "Deref", "Cast", "DropTemps", "Use", "Type"):
+        return _ev(e.get("e"), env)
+    if k == "Unary" and e.get("op") == "!":
+        v = _ev(e["e"], env)
+        return (not v) if isinstance(v, bool) else UNK
+    if k == "Binary":
+        op = e.get("op")
+        a = _ev(e["l"], env)
+        if op == "&&":
+            if a is False:
+                return False
+            b = _ev(e["r"], env)
+            return b if a is True else (False if b is False else UNK)
+        if op == "||":
+            if a is True:
+                return True
+            b = _ev(e["r"], env)
+            return b if a is False else (True if b is True else UNK)
+        b = _ev(e["r"], env)
+        if a is UNK or b is UNK:
+            return UNK
+        try:
+            return {"==": a == b, "!=": a != b, "<": a < b, "<=": a <= b, ">": a > b, ">=": a >= b}.get(op, UNK)
+        except TypeError:
+            return UNK
+    if k == "Tup":
+        return tuple(_ev(x, env) for x in e.get("es", []))
+    if k == "Match" and e.get("src") not in ("TryDesugar", "ForLoopDesugar"):
+        # `matches!(s, 'a' | 'b')`: a match whose arms are boolean literals
+        v = _ev(e["scrut"], env)
+        for a in e.get("arms", []):
+            r = _pat3(a["pat"], v)
+            if r is UNK or a.get("guard") is not None:
+                return UNK
+            if r:
+                return _ev(a["body"], env)
+        return UNK
+    if k == "BlockExpr" and not e["block"].get("stmts") and e["block"].get("expr") is not None:
+        return _ev(e["block"]["expr"], env)
+    return UNK
+
+
+def _pat3(p, v):
+    """three-valued pattern match: True / False / UNK (the pattern looks at a component that is not known)"""
+    k = p.get("k")
+    if k == "Wild":
+        return True
+    if k == "Binding":
+        return _pat3(p["sub"], v) if p.get("sub") else True
+    if k in ("Ref", "Box", "Deref"):
+        return _pat3(p["pat"], v)
+    if k == "Or":
+        rs = [_pat3(x, v) for x in p["pats"]]
+        return True if any(r is True for r in rs) else (UNK if any(r is UNK for r in rs) else False)
+    if k == "Tuple":
+        if not isinstance(v, tuple):
+            return UNK
+        pats, dd = p["pats"], p.get("dd")
+        if dd is None:
+            pairs = list(zip(pats, v)) if len(pats) == len(v) else None
+        else:
+            before, after = pats[:dd], pats[dd:]
+            pairs = None if len(before) + len(after) > len(v) else list(zip(before, v[:len(before)])) + list(zip(after, v[len(v) - len(after):] if after else []))
+        if pairs is None:
+            return False
+        rs = [_pat3(x, y) for x, y in pairs]
+        return False if any(r is False for r in rs) else (UNK if any(r is UNK for r in rs) else True)
+    if v is UNK:
+        return UNK
+    return _match_pat(p, v)
+
+
+def _run(e, env, eff, guarded, skip):
+    """paths through one iteration of the scanner's loop body for a concrete (char, state): [(node, effects, guarded, env)]
+    for paths that fall through, plus finished paths (return) flagged by env None"""
+    e = unwrap(e)
+    if not isinstance(e, dict):
+        return [(None, eff, guarded, env)]
+    k = e.get("k")
+    if k == "BlockExpr":
+        b = e["block"]
+        seq = [s_ for s_ in b.get("stmts", [])] + ([{"k": "Expr", "e": b["expr"]}] if b.get("expr") is not None else [])
+        cur = [(None, eff, guarded, env)]
+        for s_ in seq:
+            x = s_.get("init") if s_.get("k") == "Let" else s_.get("e")
+            if x is None:
+                continue
+            nxt = []
+            for node, ef, g, en in cur:
+                if en is None:
+                    nxt.append((node, ef, g, en))
+                    continue
+                for r in _run(x, en, ef, g, skip):
+                    nxt.append((r[0] or node, r[1], r[2], r[3]))
+            cur = nxt
+        return cur
+    if k == "If":
+        c = _ev(e["cond"], env)
+        out = []
+        if c is not False:
+            out += [(r[0] or e, r[1], r[2], r[3]) for r in _run(e["then"], env, eff, guarded or c is UNK, skip)]
+        if c is not True:
+            if e.get("els") is not None:
+                out += [(r[0] or e, r[1], r[2], r[3]) for r in _run(e["els"], env, eff, guarded or c is UNK, skip)]
+            else:
+                out.append((e, eff, guarded or c is UNK, env))
+        return out
+    if k == "Match" and e.get("src") not in ("TryDesugar", "ForLoopDesugar"):
+        v = _ev(e["scrut"], env)
+        out = []
+        g = guarded
+        for a in e.get("arms", []):
+            r = _pat3(a["pat"], v)
+            if r is False:
+                continue
+            gv = _ev(a["guard"], env) if a.get("guard") is not None else True
+            if gv is False:
+                continue
+            sure = r is True and gv is True
+            out += [(x[0] or a, x[1], x[2], x[3]) for x in _run(a["body"], env, eff, g or not sure, skip)]
+            if sure:
+                break
+            g = True        # a later arm is only reached when this one did not fire
+        return out
+    if k in ("Assign", "AssignOp"):
+        nm = _sv(e["l"])
+        nm = _CANON.get(nm, nm) if nm else None
+        if nm and nm not in skip:
+            if k == "Assign":
+                v = lit_value(e["r"])
+                eff = eff | {"%s=%s" % (nm, v if v is not None else "expr")}
+                env = dict(env)
+                env[nm] = v if v is not None else UNK
+            else:
+                eff = eff | {"%s%s=" % (nm, e["op"].rstrip("="))}
+                env = dict(env)
+                env[nm] = UNK
+        return [(e, eff, guarded, env)]
+    if k == "Ret":
+        vs = variants_built(e, "CellFormat")
+        return [(e, eff | {"return " + (vs[0] if vs else "?")}, guarded, None)]
+    if k in ("Break", "Continue"):
+        return [(e, eff, guarded, None)]
+    return [(None, eff, guarded, env)]
+
+
 def r_fmt_scan(ctx, rep):
+    from .kit import for_loops
     F = ctx.facts("default")
     fn = F.fn("formats::detect_custom_number_format")
     if fn is None:
         rep.anchor_missing("R-FMT-SCAN", "formats::detect_custom_number_format")
         return
-    m = None
-    for x in walk_k(fn.body, "Match"):
-        sc = unwrap(x["scrut"])
-        if sc.get("k") == "Tup" and len(sc["es"]) >= 4:
-            m = x
-    if m is None:
+    loops = [fl for fl in for_loops(fn.body) if any(c.get("name") == "chars" for c in walk_k(fl[0], "MethodCall")) or "Chars" in ((peel(fl[0]) or {}).get("ty") or "")]
+    if not loops:
         rep.anchor_missing("R-FMT-SCAN", "the (char, escaped, quoted, am/pm, brackets) decision table")
         return
-    names = [_sv(e) or "?" for e in unwrap(m["scrut"])["es"]]
-    try:
-        i_esc, i_quote, i_br = names.index("escaped"), names.index("is_quote"), names.index("brackets")
-        i_ap = names.index("ap")
-    except ValueError:
-        # renamed state variables: fall back to their roles by position and type, (char, escaped: bool, in_quote: bool,
-        # am_pm: bool, brackets: integer), and give them their canonical names for the effect strings
-        tys = [(unwrap(e).get("ty") or "") for e in unwrap(m["scrut"])["es"]]
-        if len(tys) == 5 and tys[0] == "char" and tys[1:4] == ["bool", "bool", "bool"] and tys[4] in ("u8", "u16", "u32", "usize", "i32"):
-            i_esc, i_quote, i_ap, i_br = 1, 2, 3, 4
-        else:
-            rep.anchor_missing("R-FMT-SCAN", "state variables escaped / is_quote / ap / brackets in the scrutinee (found %s)" % names)
-            return
+    it, pat, lbody, outer = loops[0]
+    cvar = [nm for nm, _ in pat_bindings(pat)]
+    if len(cvar) != 1:
+        rep.anchor_missing("R-FMT-SCAN", "the character variable of the scanner's loop")
+        return
+    cvar = cvar[0]
+    # the four state variables, by name; renamed ones by their role in a (char, bool, bool, bool, integer) scrutinee
+    seen = set()
+    for n in walk(lbody):
+        if isinstance(n, dict) and n.get("k") in ("Path", "Field"):
+            nm = _sv(n)
+            if nm:
+                seen.add(nm)
     canon = {}
-    for idx, cn in ((i_esc, "escaped"), (i_quote, "is_quote"), (i_ap, "ap"), (i_br, "brackets")):
-        canon[names[idx]] = cn
-    names = [canon.get(n_, n_) for n_ in names]
+    if not {"escaped", "is_quote", "ap", "brackets"} <= seen:
+        m0 = None
+        for x in walk_k(lbody, "Match"):
+            sc = unwrap(x["scrut"])
+            if sc.get("k") == "Tup" and len(sc["es"]) == 5:
+                m0 = x
+        tys = [(unwrap(e).get("ty") or "") for e in unwrap(m0["scrut"])["es"]] if m0 else []
+        if len(tys) == 5 and tys[0] == "char" and tys[1:4] == ["bool", "bool", "bool"] and tys[4] in ("u8", "u16", "u32", "usize", "i32"):
+            nms = [_sv(e) or "?" for e in unwrap(m0["scrut"])["es"]]
+            canon = {nms[1]: "escaped", nms[2]: "is_quote", nms[3]: "ap", nms[4]: "brackets"}
+        else:
+            rep.anchor_missing("R-FMT-SCAN", "the (char, escaped, quoted, am/pm, brackets) decision table")
+            return
+    canon[cvar] = "@char"
     _CANON.clear()
     _CANON.update(canon)
+    # what every iteration does unconditionally (`prev = s;`) decides nothing
+    skip = set()
+    top_ = unwrap(lbody)
+    for s_ in (top_["block"].get("stmts", []) if isinstance(top_, dict) and top_.get("k") == "BlockExpr" else []):
+        e_ = unwrap(s_.get("e")) if s_.get("k") in ("Expr", "Semi") and s_.get("e") is not None else None
+        if isinstance(e_, dict) and e_.get("k") == "Assign" and _sv(e_["l"]):
+            skip.add(_CANON.get(_sv(e_["l"]), _sv(e_["l"])))
+    skip -= {"escaped", "is_quote", "ap", "brackets"}
+    body_e = lbody if isinstance(lbody, dict) and lbody.get("k") != "Block" else {"k": "BlockExpr", "block": lbody}
+    m = outer
 
     def decide(s, esc, quote, ap, br):
-        v = [None] * len(names)
-        v[0] = s
-        v[i_esc], v[i_quote], v[i_ap], v[i_br] = esc, quote, ap, br
-        outs = []
-        for arm in m["arms"]:
-            if _match_pat(arm["pat"], v):
-                eff = frozenset(_effects(arm["body"], names))
-                if arm.get("guard") is not None:
-                    outs.append((arm, eff, True))     # may or may not fire: keep looking too
-                    continue
-                outs.append((arm, eff, False))
-                break
-        return outs
+        env = {"@char": s, "escaped": esc, "is_quote": quote, "ap": ap, "brackets": br}
+        return [(node or outer, frozenset(eff), g) for node, eff, g, _ in _run(body_e, env, frozenset(), False, skip)]
 
     n_cases = 0
     bad = {}
@@ -176,7 +345,17 @@ def r_fmt_scan(ctx, rep):
     check("plain", [(s, False, False, False, 0) for s in ('0', '#', ' ', ':', '.', '-', '$', 'x', 'g')],
           lambda eff, g: not any(e.startswith("return") for e in eff), "no return")
     # P9 brackets are counted
-    br_ty = (unwrap(unwrap(m["scrut"])["es"][i_br]).get("ty") or "")
+    br_ty = ""
+    inv = {v: k for k, v in _CANON.items()}
+    for l_ in walk_k(fn.body, "Let"):
+        for nm_, _lid in pat_bindings(l_["pat"]):
+            if nm_ == inv.get("brackets", "brackets"):
+                br_ty = (l_["pat"].get("ty") or (unwrap(l_["init"]).get("ty") if l_.get("init") is not None else "") or "")
+    if not br_ty:
+        for n_ in walk(lbody):
+            if isinstance(n_, dict) and n_.get("k") in ("Path", "Field") and _CANON.get(_sv(n_), _sv(n_)) == "brackets" and n_.get("ty"):
+                br_ty = n_["ty"].replace("&mut ", "").replace("&", "")
+                break
     narrow = br_ty in ("u8", "u16", "i8", "i16")
     check("open-bracket", [('[', False, False, a, b) for a in B for b in (0, 1)],
           lambda eff, g: eff == {"brackets=expr"} or (eff == {"brackets+="} and not narrow),
